@@ -168,6 +168,19 @@ Example C19_witness_history :
        [255; 255; 255; 1; 2; 255; 3; 4; 130; 5; 57]]).
 Proof. vm_compute. reflexivity. Qed.
 
+(* why "live" matters: restoring an undo state whose add has been undone (here: undo #0, then the
+   dead state #1) puts the cursor beyond the end of the truncated Vec; the next write zero-fills
+   the gap. The implementation produces the same bytes (lib/gen_incr.py misuse_histories). *)
+Example C19_dead_undo_state_is_misuse :
+  let x := SAtom [102; 111; 111; 98; 97; 114] in let y := SAtom [98; 97; 114; 102; 111; 111] in
+  res_map snd (run_history (fun _ _ => None)
+    [HAdd (SCons x SHole); HAdd (SCons y SHole); HRestore 0; HRestore 1; HAdd (SAtom [])] ser_new [] []) =
+  Ok [[255; 134; 102; 111; 111; 98; 97; 114];
+      [255; 134; 102; 111; 111; 98; 97; 114; 255; 134; 98; 97; 114; 102; 111; 111];
+      []; [];
+      [0; 0; 0; 0; 0; 0; 0; 0; 128]].
+Proof. vm_compute. reflexivity. Qed.
+
 Print Assumptions C19_undo.
 Print Assumptions C19_undo_bytes.
 Print Assumptions C19_undo_behaves.
@@ -183,3 +196,4 @@ Print Assumptions C19_assemble.
 Print Assumptions C19_decode_witness.
 Print Assumptions C19_salt.
 Print Assumptions C19_witness_history.
+Print Assumptions C19_dead_undo_state_is_misuse.
